@@ -103,6 +103,14 @@ pub fn fail(signature: impl Into<String>, detail: impl Into<String>) -> Outcome 
     Outcome::Fail(Violation { signature: signature.into(), detail: detail.into() })
 }
 
+/// for fuzz entries: keep only the violation of an outcome
+pub fn violation_of(o: Outcome) -> Option<Violation> {
+    match o {
+        Outcome::Fail(v) => Some(v),
+        Outcome::Pass(_) => None,
+    }
+}
+
 /// Harness-level problem (guard failure, watchdog): the run is inconclusive.
 pub fn inconclusive(msg: &str) -> ! {
     println!("INCONCLUSIVE: {msg}");
